@@ -33,11 +33,38 @@ impl Drop for Val {
     }
 }
 
+thread_local! {
+    static ZDROPS: std::cell::Cell<(u32, u32)> = const { std::cell::Cell::new((0, 0)) }; // (created, dropped)
+}
+
+/// zero-sized value with a destructor
+struct Z;
+
+impl Z {
+    fn new() -> Z {
+        ZDROPS.with(|z| z.set((z.get().0 + 1, z.get().1)));
+        Z
+    }
+}
+
+impl Drop for Z {
+    fn drop(&mut self) {
+        ZDROPS.with(|z| z.set((z.get().0, z.get().1 + 1)));
+    }
+}
+
+const NOPS: usize = 18;
 const KEYS: [&str; 2] = ["a", "b"];
 const KINDS: [&str; 4] = ["put", "get", "get_mut", "remove"];
 
 /// op code: co*8 + key*4 + kind
 fn op_name(op: u8) -> String {
+    if op == 16 {
+        return "put(co0,z,<zero-sized>)".into();
+    }
+    if op == 17 {
+        return "remove(co0,z)".into();
+    }
     format!("{}(co{},{})", KINDS[(op % 4) as usize], op / 8, KEYS[((op / 4) % 2) as usize])
 }
 
@@ -46,8 +73,10 @@ fn hist_json(h: &[u8]) -> Value {
 }
 
 /// Execute one history in-process; returns Err((clause, detail)) on the first oracle failure.
-fn run_history(h: &[u8]) -> Result<(), (String, String)> {
+fn run_history(h: &[u8], unwind: bool) -> Result<(), (String, String)> {
     DROPS.with(|d| d.borrow_mut().clear());
+    ZDROPS.with(|z| z.set((0, 0)));
+    let mut z_stored = false;
     let mut cos: Vec<SchedulableCoroutine<'static>> = (0..2)
         .map(|i| {
             open_coroutine_core::co!(Some(format!("c25-{i}")), |_, ()| None, Some(16 * 1024)).expect("co")
@@ -57,9 +86,22 @@ fn run_history(h: &[u8]) -> Result<(), (String, String)> {
     // ids whose one and only drop is due by now
     let mut dead: Vec<usize> = Vec::new();
     for (step, &op) in h.iter().enumerate() {
+        let at = |what: &str| format!("step {step} {}: {what}", op_name(op));
+        if op >= 16 {
+            let had = if op == 16 { cos[0].put("z", Z::new()).is_some() } else { cos[0].remove::<Z>("z").is_some() };
+            if had != z_stored {
+                return Err(("put-returns-previous".into(), at(&format!("zero-sized value: previous value present = {had}, reference {z_stored}"))));
+            }
+            z_stored = op == 16;
+            let (created, dropped) = ZDROPS.with(std::cell::Cell::get);
+            let want = created - u32::from(z_stored);
+            if dropped != want {
+                return Err(("value-dropped-exactly-once".into(), at(&format!("{dropped} zero-sized values dropped, expected {want}"))));
+            }
+            continue;
+        }
         let c = (op / 8) as usize;
         let key = KEYS[((op / 4) % 2) as usize];
-        let at = |what: &str| format!("step {step} {}: {what}", op_name(op));
         match op % 4 {
             0 => {
                 let v = Val::new();
@@ -129,7 +171,20 @@ fn run_history(h: &[u8]) -> Result<(), (String, String)> {
     }
     // dropping the coroutines must drop everything still stored
     let stored: Vec<usize> = model.iter().flat_map(|m| m.values().copied()).collect();
-    cos.clear();
+    if unwind {
+        // the coroutines are dropped while their owner unwinds from a panic
+        let owned = std::mem::take(&mut cos);
+        let _ = std::panic::catch_unwind(std::panic::AssertUnwindSafe(move || {
+            let _guard = owned;
+            panic!("owner panics");
+        }));
+    } else {
+        cos.clear();
+    }
+    let (zc, zd) = ZDROPS.with(std::cell::Cell::get);
+    if zc != zd {
+        return Err(("stored-values-dropped-with-coroutine".into(), format!("after dropping the coroutines{} {zd} of {zc} zero-sized values were dropped", if unwind { " (during unwinding)" } else { "" })));
+    }
     let bad = DROPS.with(|d| {
         let d = d.borrow();
         for (id, n) in d.iter().enumerate() {
@@ -145,7 +200,7 @@ fn run_history(h: &[u8]) -> Result<(), (String, String)> {
         } else {
             "value-dropped-exactly-once"
         };
-        return Err((clause.into(), format!("after dropping the coroutines value #{id} was dropped {n} times (still stored at drop: {stored:?})")));
+        return Err((clause.into(), format!("after dropping the coroutines{} value #{id} was dropped {n} times (still stored at drop: {stored:?})", if unwind { " (during unwinding)" } else { "" })));
     }
     Ok(())
 }
@@ -157,22 +212,26 @@ struct Case {
 }
 
 fn exec(case: &Case, em: &mut Emitter) {
+    std::panic::set_hook(Box::new(|_| {}));
     // enumerate every completion of the prefix up to `depth`, shortest first
     let mut total = 0u64;
     let mut firsts: Vec<(String, String, Vec<u8>)> = Vec::new();
     for len in case.prefix.len()..=case.depth {
         let free = len - case.prefix.len();
-        let n = 16usize.pow(free as u32);
+        let n = NOPS.pow(free as u32);
         for mut code in 0..n {
             let mut h = case.prefix.clone();
             for _ in 0..free {
-                h.push((code % 16) as u8);
-                code /= 16;
+                h.push((code % NOPS) as u8);
+                code /= NOPS;
             }
-            total += 1;
-            if let Err((clause, detail)) = run_history(&h) {
-                if !firsts.iter().any(|f| f.0 == clause) {
-                    firsts.push((clause, detail, h));
+            for unwind in [false, true] {
+                total += 1;
+                if let Err((clause, detail)) = run_history(&h, unwind) {
+                    let clause = if unwind { format!("{clause}:during-unwind") } else { clause };
+                    if !firsts.iter().any(|f| f.0 == clause) {
+                        firsts.push((clause, detail, h.clone()));
+                    }
                 }
             }
         }
@@ -187,13 +246,14 @@ pub fn run(tier: &str, rep: &mut Report) {
     let depth = if tier == "thorough" { 5 } else { 4 };
     // cases: the empty prefix covers lengths 0 and 1; every 2-op prefix covers lengths 2..=depth
     let mut cases = vec![Case { prefix: vec![], depth: 1 }];
-    for a in 0..16u8 {
-        for b in 0..16u8 {
+    for a in 0..NOPS as u8 {
+        for b in 0..NOPS as u8 {
             cases.push(Case { prefix: vec![a, b], depth });
         }
     }
-    rep.bounds = json!({"coroutines":2,"keys":2,"ops":["put","get","get_mut","remove"],"depth":depth,
-        "histories": (0..=depth).map(|d| 16u64.pow(d as u32)).sum::<u64>()});
+    rep.bounds = json!({"coroutines":2,"keys":2,"ops":["put","get","get_mut","remove","put zero-sized","remove zero-sized"],"depth":depth,
+        "drop_modes":["normal","while the owner unwinds from a panic"],
+        "histories": (0..=depth).map(|d| 2 * (NOPS as u64).pow(d as u32)).sum::<u64>()});
     rep.require(&["histories_with_both_coroutines"]);
     let cfg = RunCfg::default();
     let budget = Budget::secs(if tier == "thorough" { 1500 } else { 45 });
@@ -210,7 +270,7 @@ pub fn run(tier: &str, rep: &mut Report) {
         if let Some(d) = res.last("done") {
             hist_total += d["histories"].as_u64().unwrap_or(0);
         }
-        if case.prefix.len() == 2 && case.prefix[0] / 8 != case.prefix[1] / 8 {
+        if case.prefix.len() == 2 && case.prefix[0] < 16 && case.prefix[1] < 16 && case.prefix[0] / 8 != case.prefix[1] / 8 {
             rep.witness("histories_with_both_coroutines");
         }
         for v in res.find("viol") {
@@ -237,9 +297,12 @@ pub fn replay(v: &Value, em: &mut Emitter) -> bool {
     let Some(h) = v.get("history").and_then(Value::as_array) else { return false };
     let h: Vec<u8> = h.iter().filter_map(|x| x.as_u64().map(|x| x as u8)).collect();
     em.emit(json!({"t":"history","ops":hist_json(&h)}));
-    match run_history(&h) {
-        Ok(()) => em.emit(json!({"t":"ok"})),
-        Err((c, d)) => em.emit(json!({"t":"viol","clause":c,"detail":d})),
+    std::panic::set_hook(Box::new(|_| {}));
+    for unwind in [false, true] {
+        match run_history(&h, unwind) {
+            Ok(()) => em.emit(json!({"t":"ok","unwind":unwind})),
+            Err((c, d)) => em.emit(json!({"t":"viol","unwind":unwind,"clause":c,"detail":d})),
+        }
     }
     true
 }
